@@ -104,10 +104,19 @@ def perturbations(c, t, thorough):
 
 def check_instance(c, t, key, rp, thorough):
     vs = []
-    p0 = solve(copy.deepcopy(c), copy.deepcopy(t))
+    c1, t1 = copy.deepcopy(c), copy.deepcopy(t)
+    p0 = solve(c1, t1)
     stats = {"solves": 1, "infeasible": 0, "moved": 0}
     if p0 is None:
         return vs, stats, None
+    # the identity perturbation (scale factor 1): solving the very same input objects again must give the same percent fed
+    # (a programme builder that writes into the series it was handed makes every later comparison depend on the call history)
+    p0b = solve(c1, t1)
+    stats["solves"] += 1
+    if p0b is None or abs(p0b - p0) > TOL * max(1.0, abs(p0)):
+        vs.append(violation("scale_invariance", dict(key, perturbation="solve the same inputs again"),
+                            "%s round %s: percent fed %.9g, and %s when the same input objects are solved a second time" % (key["iso3"], key["round"], p0, "%.9g" % p0b if p0b is not None else "infeasible"),
+                            dict(rp, perturbation="solve the same inputs again")))
     for name, sign, fn in perturbations(c, t, thorough):
         cc, tt = copy.deepcopy(c), copy.deepcopy(t)
         fn(cc, tt)
